@@ -8,8 +8,8 @@ History monitor over recorded calls on the same configured object (bit-exact com
                 which the statistic grows on draw k+1, T_{k+1}/T_k = h[k-1]/h[k], is read from histories on
                 x[:k]+[v], v in {0, u/2, u}.  Every shipped statistic multiplies by a factor that is affine in the current
                 observation with coefficients fixed by the earlier draws (the alternative / bet); a coefficient that
-                looks at the current draw makes the three factors non-collinear.  Only entries strictly inside (0,1) are
-                used (clamped or boundary entries carry no information).
+                looks at the current draw makes the three factors non-collinear.  Only entries strictly inside (1e-280,1) are
+                used (clamped or boundary entries carry no information; subnormal ones have lost their precision).
 """
 import math
 import random
@@ -23,7 +23,7 @@ RULE = ("(configuration, sample x, cut k, replacement tail y) tuples, stratified
         "the original tail; distinct = hash of the tuple")
 REQUIRED = [f"prefix_checked:{nn.label({'test': a, 'estim': b, 'bet': c})}" for a, b, c in nn.COMBOS] + \
            ["truncate_checked", "estim_checked", "bet_checked", "k_is_1", "k_is_n_minus_1", "truncation_lowered_kth"] + \
-           [f"increment_affine_checked:{t}" for t in sorted({c[0] for c in nn.COMBOS})]
+           [f"increment_affine_checked:{t}" for t in sorted({c[0] for c in nn.COMBOS})] + ["long_samples"]
 ASSUMPTIONS = ["numpy's cumulative kernels are sequential, so prefix-stability is checked with bit equality",
                "both samples continue beyond the cut (the property's own hypothesis)"]
 N_CASES = {"quick": 160000, "thorough": 1500000}
@@ -38,6 +38,19 @@ def run_shard(spec, rec):
     rng = random.Random(f"c05-{spec['seed']}-{spec['shard']}")
     for i in range(spec["n"]):
         combo = nn.COMBOS[i % len(nn.COMBOS)]
+        if i % 100 == 99:
+            # long samples (600-2500 draws): the running product leaves the floating-point range before the cut
+            cfg, desc = nn.gen_long(rng, combo)
+            x = nn.expand_long(desc, cfg)
+            if nn.in_domain(cfg, x):
+                n = len(x)
+                k = rng.choice((n // 2, n // 2 + 1, n - 1, rng.randint(1, n - 1)))
+                u = cfg["u"]
+                y = [rng.choice((0.0, u)) for _ in range(min(3, (nn.cfgN(cfg) if cfg["N"] != "inf" else n + 3) - k))]
+                if y:
+                    rec.count("long_samples")
+                    run_case({"cfg": cfg, "x_long": desc, "k": k, "y": y, "stratum": "long_sample", "tail": "random"}, rec)
+            continue
         cfg = nn.gen_cfg(rng, combo=combo, n_max=rng.choice((4, 8, 12, 30)))
         N = nn.cfgN(cfg)
         cap = N if math.isfinite(N) else 20
@@ -71,7 +84,8 @@ def _arr(v, n):
 
 
 def run_case(case, rec):
-    cfg, x, k, y = case["cfg"], [float(v) for v in case["x"]], int(case["k"]), [float(v) for v in case["y"]]
+    cfg, k, y = case["cfg"], int(case["k"]), [float(v) for v in case["y"]]
+    x = [float(v) for v in (case["x"] if "x" in case else nn.expand_long(case["x_long"], cfg))]
     n = len(x)
     rec.case(case, nontrivial=(len(set(x)) > 1 and y != x[k:k + len(y)]))
     if k == 1:
@@ -120,7 +134,7 @@ def run_case(case, rec):
                 if not okv:
                     break
                 hs.append(np.asarray(rv[1], dtype=float))
-            if len(hs) == 3 and all(len(a) == k + 1 for a in hs) and all(0 < a[k - 1] < 1 and 0 < a[k] < 1 for a in hs) \
+            if len(hs) == 3 and all(len(a) == k + 1 for a in hs) and all(1e-280 < a[k - 1] < 1 and 1e-280 < a[k] < 1 for a in hs) \
                     and same(hs[0][:k], hs[1][:k]) and same(hs[0][:k], hs[2][:k]):
                 r0, r1, r2 = (float(a[k - 1] / a[k]) for a in hs)
                 rec.count(f"increment_affine_checked:{cfg['test']}")
